@@ -114,6 +114,56 @@ def yield_gate(ctx, f, yield_fn, work_prefixes, rule):
                     ctx.ok(rule, d, sample={'fn': d, 'loop_header_bb': H, 'gate_bb': gate, 'blocks_in_loop': len(loops[H])})
     return n
 
+def coop_passthrough(ctx, f, sched, yield_pats, rule='cooperative-passthrough', trait_method='execute'):
+    """(5b) an operator that declares Cooperative on EVERY path of its property computation must not have an execute() path that hands the child's
+    stream through untouched (no yield source on that path): EnsureCooperative trusts the declaration and leaves the leaf below it unwrapped.
+    Operators whose declaration is conditional (CoalescePartitionsExec: only with more than one input partition) are not decided here."""
+    import C16 as _C16
+    from traces import run_traces as _rt
+    npt = 0
+    for c in f.constructors.get(sched, []):
+        rec = f.fn(c)
+        owner = rec.get('impl_self')
+        if not owner or owner not in f.adts or rec.get('coroutine'):
+            continue
+        if not any(st[0] == '=' and st[2][0] == 'agg' and st[2][1][0] == 'adt' and st[2][1][1] == sched and st[2][1][3] == 'Cooperative' for b in rec['bb'] for st in b['s']):
+            continue
+        try:
+            outs = _rt(f, rec, _C16.args_for(rec), inline_depth=0, time_budget=20, budget=400000, loop_visits=1)
+        except Undecidable:
+            continue
+        okp = [o for o in outs if not (isinstance(strip(o.ret), A) and strip(o.ret).name == 'Err')]
+        uncond = bool(okp) and all(any(e[0] == 'agg' and e[1] == sched and e[2] == 'Cooperative' for e in o.events) for o in okp)
+        for e in [d for d in f.fn_index if (d.startswith('<%s as ' % owner) or d.startswith(owner + '::')) and d.rsplit('::', 1)[-1] == trait_method]:
+            er = f.fn(e)
+            try:
+                eo = _rt(f, er, _C16.args_for(er), inline_depth=0, time_budget=20, budget=400000, loop_visits=1, try_tags=True)
+            except Undecidable:
+                continue
+            npt += 1
+            passthrough = None
+            for o in eo:
+                r = strip(o.ret)
+                if isinstance(r, A) and r.name == 'Ok':
+                    t = tag_of(read_proj(r, [('f', 0)])) or ''
+                elif isinstance(r, U) and r.tag:
+                    t = r.tag           # `return self.input.execute(..)`: the child's Result is returned as is
+                else:
+                    continue
+                while t.startswith('try:'):
+                    t = t[4:]
+                if t.startswith('call:%s@' % trait_method) and not any(ev[0] == 'callargs' and any(y in ev[1] for y in yield_pats) for ev in o.events):
+                    passthrough = t
+            inst = owner.rsplit('::', 1)[-1]
+            if uncond and passthrough:
+                ctx.fail(rule, inst, ctx.loc(er), 'declares SchedulingType::Cooperative on every path of %s, but execute() has a path that returns the child stream '
+                         'untouched (%s) with no yield source: a non-cooperative leaf below it is then never wrapped and a timeout/cancel may never fire'
+                         % (c.rsplit('::', 1)[-1], passthrough[:40]), key='%s|%s' % (rule, owner))
+            else:
+                ctx.ok(rule, inst, nontrivial=uncond, sample={'operator': inst, 'declares_cooperative_unconditionally': uncond, 'passthrough_path': bool(passthrough)})
+    return npt
+
+
 def run(ctx):
     f = ctx.facts
     # (1)
@@ -197,6 +247,8 @@ def run(ctx):
                      '(cooperative wrap, yield_now, tokio channel): EnsureCooperative will trust the declaration and a timeout/cancel may never fire',
                      key='cooperative-yields|' + owner)
     ctx.floor('cooperative-yields', 'types declaring Cooperative', n, 13)
+    npt = coop_passthrough(ctx, f, SCHED, YIELD)
+    ctx.floor('cooperative-passthrough', 'execute() bodies of operators declaring Cooperative', npt, 9)
     # (6) the yield heuristic of a spawned driver loop is reached by every iteration that did work
     ny = yield_gate(ctx, f, 'tokio::task::yield_now::yield_now', ('datafusion_', '<datafusion_'), 'yield-gate')
     ctx.floor('yield-gate', 'driver loops that rely on yield_now', ny, 1)
@@ -211,3 +263,10 @@ def run(ctx):
     keys = [v['key'] for v in probe.viol if v['key'].startswith('st-yield|')]
     ctx.selftest('yield-gate reports a driver loop whose working iteration can skip the yield countdown (bad_driver), accepts good_driver',
                  any('bad_driver' in k for k in keys) and not any('good_driver' in k for k in keys))
+    import common as _common
+    _probe = _common.Ctx(ctx.pid, ctx.tier, ctx.st, ctx.st, {})
+    _probe.known = []
+    coop_passthrough(_probe, ctx.st, 'dfscan_selftest::spawny::Sched', ('make_coop',), rule='st-pass')
+    ctx.selftest('cooperative-passthrough reports an operator that always declares Cooperative but hands a single child stream through (PassAll), '
+                 'silent on the conditional declarer (PassCond) and the wrapping one (WrapAll)',
+                 sorted(v['key'] for v in _probe.viol) == ['st-pass|dfscan_selftest::spawny::PassAll'])
